@@ -64,6 +64,12 @@ def declare(reg, eng):
     reg.contract("Lock.__exit__", params=["self"], types={"self": "Lock"}, requires=["isint(self._level)", "isbool(self.detached)"],
                  ensures=[("C09", "implies(not old(self.detached) and old(self._level) == 1, self._level == 0 and effect_count('_release') == 1)")],
                  modifies=["self._level", "*.available", "fs"])
+    REL = "forall(k, 0, %s, implies(not old(at(self.locks, k).detached) and old(at(self.locks, k)._level) == 1, at(self.locks, k)._level == 0))"
+    reg.contract("Locks._release", params=["self"], types={"self": "Locks"},
+                 requires=["distinct(self.locks)"],
+                 ensures=[("C09", REL % "length(self.locks)")],
+                 modifies=["*._level", "*.available", "*.total", "*.cache", "fs"],
+                 loops={"lock": {"invariants": [REL % "_i", "forall(k, _i, length(self.locks), at(self.locks, k)._level == old(at(self.locks, k)._level))"]}})
     reg.contract("JobLock._acquire", params=["self"], types={"self": "JobLock"}, returns="bool", modifies=[],
                  ensures=["result == (self.job.state == JobState.DONE)"])
     reg.contract("JobLock._release", params=["self"], types={"self": "JobLock"}, modifies=[])
